@@ -178,7 +178,7 @@ class Prop:
         if fails:
             op, (si, name, msg) = fails[0]
             fail = f"{name}: {msg} [step {si}, op {op[0]}]"
-        return Case(desc=desc, coq_input=term, impl_obs=obs, oracle_fail=fail, nontrivial=nontrivial,
+        return Case(desc=desc, coq_input=term, impl_obs=mut_ex.safe_obs(obs), oracle_fail=fail, nontrivial=nontrivial,
                     key=H.digest([desc["univ"], desc.get("setup"), desc.get("alts"), desc.get("ops")]), stats=stats)
 
 
